@@ -79,6 +79,7 @@ PROPS["C10"] = {
 }
 
 PROPS["DEVTEST"] = {"suites": [("comp_dev", "gen_cases")], "rule": "dev model bring-up"}
+PROPS["CLITEST"] = {"suites": [("comp_cli", "gen_c15"), ("comp_cli", "gen_c16")], "rule": "cli bring-up"}
 PROPS["C12TEST"] = {"suites": [("comp_dev", "gen_c12")], "rule": "c12 bring-up"}
 
 MANIFEST_TEXT = {
@@ -149,5 +150,17 @@ MANIFEST_TEXT = {
         "note": "Trusted: Lean kernel + standard axioms; the per-case executable checks streamOkB/corruptB decide whether a theorem's hypotheses hold for the real parser on that case; "
                 "wall-clock hang-freedom of CPython/expat is represented by the watchdog only.",
         "technique": "Lean 4 termination proof + invariants over the process loop + differential correspondence with watchdog",
+    },
+    "C10": {
+        "text": "Kernel-checked theorems (lean/Indi/Properties/C10.lean, 1250 lines of lemmas in Proofs/Num.lean) for EVERY format of the family and EVERY rational value: "
+                "C10_render_valid (whatever num_to_str renders is accepted by the validator), C10_sexa_denotes / C10_f_denotes / C10_d_denotes (the text denotes the value within one unit "
+                "of the last place under an independent INDI reader - sign on the whole magnitude; |x| <= 1e9 for sexagesimal), C10_parse_denotes (every text the validator grammar accepts is "
+                "parsed: integers exactly, everything else to the correctly rounded value it denotes), C10_sexa_roundtrip. Floating point enters through an abstract Arith with relative "
+                "error 2^-53 (exact arithmetic is an instance). Correspondence: exact-rational comparison with values.py/checks.py on resolution grids, carry neighbourhoods and all short "
+                "strings over the number alphabet (4.5 million cases in the thorough tier); oracle renderHolds/parseHolds in Lean on the implementation's output.",
+        "note": "Trusted: Lean kernel + standard axioms; that CPython's float multiplication, float(str) and float(Fraction) round correctly (the executable instance exactIEEE used in the "
+                "correspondence is not proved to satisfy Arith.Accurate); formats outside %[flags][width][.prec]{d,f} and %w.{3,5,6,8,9}m are outside the model; values beyond binary64's "
+                "normal range are excluded.",
+        "technique": "Lean 4 proofs over exact rationals with an abstract rounding function + exact-ratio differential correspondence",
     },
 }
